@@ -395,14 +395,13 @@ func VP_C12_reload_mutate() {
 // new value symbolic.
 func VP_C12_big_palette() {
 	const L = 64
-	npal := []int{128, 200, 256}[vp.Choice(3)]
-	bits := 7
-	if npal > 128 {
-		bits = 8
-	}
+	npal := []int{128, 200, 256, 32, 64}[vp.Choice(5)]
+	bits := vpCeilLog2(npal)
+	// ids of one/two VarInt bytes, or all of three bytes (16384 and up)
+	base := []int{5, 16384}[vp.Choice(2)]
 	hp := &hashPalette[BlocksState]{bits: bits, ids: map[BlocksState]int{}, values: make([]BlocksState, 0, 1<<uint(bits))}
 	for i := 0; i < npal; i++ {
-		v := BlocksState(5 + 3*i)
+		v := BlocksState(base + 3*i)
 		hp.ids[v] = i
 		hp.values = append(hp.values, v)
 	}
